@@ -78,6 +78,35 @@ theorem gen_schema_templates :
     Gen.schemaNoEnvelope = [[.lit "document ::= content".toList]] ∧
     Gen.schemaTail = [[], [.lit "root ::= document".toList]] ∧ Gen.schemaLineJoiner = "\n".toList := by decide
 
+/-- the exact text of every constant fragment (any edit of a template in the source shows up here) -/
+theorem gen_fragment_texts :
+    Gen.requiredFragment = "[^\\n]+".toList ∧ Gen.optionalFragment = "[^\\n]*".toList ∧
+    Gen.unknownFragment = "[^\\n]+".toList ∧ Gen.emptyChainFragment = "[^\\n]*".toList ∧
+    Gen.typePatterns = [("STRING".toList, "[^\\n]+".toList), ("NUMBER".toList, "\"-\"? [0-9]+ (\".\" [0-9]+)?".toList),
+      ("BOOLEAN".toList, "(\"true\" | \"false\")".toList), ("LIST".toList, "\"[\" [^\\]]* \"]\"".toList)] ∧
+    Gen.typeDefault = "[^\\n]+".toList ∧ Gen.regexDegrade = "[^\\n]+".toList ∧ Gen.regexDegenerateFragment = "[^\\n]+".toList ∧
+    Gen.dirFragment = "[a-zA-Z0-9_./-]+".toList ∧ Gen.listFragment = "\"[\" [^\\]]* \"]\"".toList ∧
+    Gen.rangeFragment = "\"-\"? [0-9]+ (\".\" [0-9]+)?".toList ∧ Gen.maxLengthFragment = "[^\\n]*".toList ∧
+    Gen.minLengthThreshold = 1 ∧ Gen.minLengthGeFragment = "[^\\n]+".toList ∧ Gen.minLengthLtFragment = "[^\\n]*".toList ∧
+    Gen.dateFragment = "[0-9][0-9][0-9][0-9] \"-\" [0-9][0-9] \"-\" [0-9][0-9]".toList ∧
+    Gen.iso8601Fragment = ("[0-9][0-9][0-9][0-9] \"-\" [0-9][0-9] \"-\" [0-9][0-9] (\"T\" [0-9][0-9] \":\" [0-9][0-9] \":\" [0-9][0-9] " ++
+      "(\"Z\" | (\"+\" | \"-\") [0-9][0-9] \":\" [0-9][0-9])?)?").toList ∧
+    Gen.schemaNoPattern = "[^\\n]*".toList := by decide +kernel
+
+/-- the CONTRACT route: the field pattern, and what each token type contributes to a reconstructed spec -/
+theorem gen_contract :
+    Gen.contractFieldPattern = "^FIELD\\[([^\\]]+)\\]::(.+)$".toList ∧
+    Gen.reconstructSkip = ["LIST_START", "LIST_END", "NEWLINE", "INDENT"].map String.toList ∧
+    Gen.reconstructAppend = [("IDENTIFIER".toList, [.var 0]), ("ASSIGN".toList, [.lit "::".toList]), ("CONSTRAINT".toList, [.var 0]),
+      ("FLOW".toList, [.var 0]), ("STRING".toList, [.lit "\"".toList, .var 0, .lit "\"".toList]), ("NUMBER".toList, [.var 1])] ∧
+    (∀ n, n ∈ Gen.pySpace ↔ n ∈ [9, 10, 11, 12, 13, 28, 29, 30, 31, 32, 133, 160, 5760, 8192, 8193, 8194, 8195, 8196, 8197, 8198, 8199,
+      8200, 8201, 8202, 8232, 8233, 8239, 8287, 12288]) := by
+  refine ⟨by decide, by decide, by decide, ?_⟩
+  intro n
+  have : Gen.pySpace = [9, 10, 11, 12, 13, 28, 29, 30, 31, 32, 133, 160, 5760, 8192, 8193, 8194, 8195, 8196, 8197, 8198, 8199,
+      8200, 8201, 8202, 8232, 8233, 8239, 8287, 12288] := by decide
+  rw [this]
+
 /-! ## `_sanitize_rule_name` -/
 
 theorem sanDigit_forall (P : Char → Prop) (s : Str) (hs : ∀ c ∈ s, P c) (hp : ∀ c ∈ Gen.sanDigitPrefix, P c) :
